@@ -338,7 +338,7 @@ def run(tier, seed):
                      "OpCheckCompat, OpSerializeFile, OpSerializeElem; OpDuplicate and OpLoad are PENDING as steps (correspondence + fuzzer only)",
                      "OpSetVersion / OpCheckCompat are covered in TYPED worlds only (agent-c17's TypedU: no move / copy that keeps a stored type the "
                      "new parent does not list) by C12_check_compat_total; outside them the call used to panic (finding C12-panic-check-compat-mixup, fixed in /repo "
-                     "7fd71e4: the mask is read from the recalculated type; C12_check_compat_mixup_fixed_real is the regression on the model, the "
+                     "d9d0053: the mask is read from the recalculated type; C12_check_compat_mixup_fixed_real is the regression on the model, the "
                      "probe `avh panics mixup` must confirm 0 panics)",
                      "op_wfv / ver_ok: version arguments are values of AutosarVersion discriminants",
                      "SizeOk: every identifiables map has fewer than 10^39 entries (injectivity of format!(\"{counter}\") in make_unique_item_name)",
